@@ -90,6 +90,17 @@ const POOL: &[PoolQ] = &[
     q("between(1, 3, X), Y is 6 / (3 - X)."),
     // open frames when abandoned
     q("setup_call_cleanup(true, member(X, [1,2,3]), true)."),
+    // several pending cleanups at once (nested, in a conjunction), with visible cleanups
+    q("setup_call_cleanup(true, setup_call_cleanup(true, member(X, [1,2]), true), true)."),
+    q("setup_call_cleanup(true, member(X, [1,2]), true), setup_call_cleanup(true, member(Y, [a,b]), true)."),
+    q("setup_call_cleanup(true, setup_call_cleanup(true, (member(X, [1,2,3]), setup_call_cleanup(true, member(Y, [p,q]), true)), true), true)."),
+    // queries that execute cuts (a stale cleaner or choice point would be acted upon here)
+    qv("member(X, [1,2,3]), X > 1, !.", &["X"]),
+    qv("once(member(X, [a,b])).", &["X"]),
+    qv("( member(X, [1,2]) -> Y = X ; Y = none ).", &["X", "Y"]),
+    qv("\\+ member(z, [a,b]), X = ok.", &["X"]),
+    qv("c40_cutty(X).", &["X"]),
+    qv("setup_call_cleanup(true, member(X, [1,2,3]), true), X >= 2, !.", &["X"]),
     q("call_with_inference_limit(member(X, [1,2,3]), 1000, R)."),
     q("catch(member(X, [1,2,3]), _, true)."),
     q("freeze(V, true), member(V, [1,2])."),
@@ -352,7 +363,13 @@ impl Check for C28 {
             }
             let want = QOut { items: want_items, ended: want_ended, panic: None };
 
-            let ok = if fired {
+            // a query with a catch-all of its own may legitimately pick the interrupt up and carry
+            // on with its recovery goal
+            let own_catch_all = text.contains(", _, ") || text.contains("), B, ");
+            let ok = if fired && own_catch_all {
+                out.bump("interrupt_met_the_query_s_own_catch_all", 1);
+                got.panic.is_none()
+            } else if fired {
                 // relaxation: the faulted query may end with the interrupt ball, nothing else
                 faulted_ok(&got, &want)
             } else {
